@@ -42,6 +42,25 @@ def term_classes_uncovered():
     return sorted(c.__name__ for c in subs(T.Term) if c not in covered and not any(issubclass(b, c) for b in built))
 
 
+def render(env, Q, q, wrap, arity=1):
+    P = env.P
+    if wrap == "top":
+        return str(q)
+    if wrap == "param":
+        return q.get_parameterized_sql()[0]
+    if wrap == "subq-from":
+        return str(Q.from_(q.as_("alz")).select("*"))
+    if wrap == "subq-in":
+        t3 = P.Table("t3")
+        return str(Q.from_(t3).select(t3.k).where(t3.k.isin(q)))
+    if wrap == "cte":
+        return str(Q.with_(q, "alz").from_(P.AliasedQuery("alz")).select("*"))
+    if wrap == "union-left":
+        t3 = P.Table("t3")
+        return str(q.union(Q.from_(t3).select(*[t3.k] * max(1, arity))))
+    raise core.MachineryError(wrap)
+
+
 def run(tier: str) -> int:
     rep = core.Report("C12", tier)
     execb.Env(core.query_classes()["generic"])
@@ -53,12 +72,18 @@ def run(tier: str) -> int:
         raise core.MachineryError(f"MC_C12: {r.violation}\n{r.raw_tail[-1500:]}")
     hs = r.json_tagged("H")
     events, meta = [], []
+    wraps = ["top"] if tier == "quick" else ["top", "param", "subq-from", "subq-in", "cte", "union-left"]
+    outer_bad = []
     for d, Q in core.query_classes().items():
         ld = core.lex_dialect(d)
-        for h in hs + ([dict(x, siblings=True) for x in hs] if d in ("generic", "mssql") else []):
+        sib = ("generic", "mssql") if tier == "quick" else tuple(core.DIALECTS)
+        for h in hs + ([dict(x, siblings=True) for x in hs] if d in sib else []):
+          for wrap in wraps:
+            if wrap != "top" and (h.get("siblings") or h["hist"][0]["m"] != "from_"):
+                continue
             env = execb.Env(Q)
             try:
-                # second pass (two dialects): the same chain inside a branching history - sibling continuations are derived from
+                # second pass: the same chain inside a branching history - sibling continuations are derived from
                 # every intermediate builder and discarded; what they select or group by must not show up here
                 q, excs = env.run(h["hist"], decoys=bool(h.get("siblings")))
             except core.MachineryError:
@@ -66,16 +91,30 @@ def run(tier: str) -> int:
             exc, text = next((e for e in excs if e), ""), ""
             if exc and h["cls"] == "Subquery":
                 continue  # a query is not an arithmetic operand (q + 1 builds a UNION): positions that cannot hold a subquery are skipped
+            if exc and wrap != "top":
+                continue
             if not exc:
                 try:
-                    text = str(q)
+                    text = render(env, Q, q, wrap, sum(len(c["terms"]) for c in h["hist"] if c["m"] == "select"))
                 except Exception as ex:  # noqa
                     exc = type(ex).__name__
                     if h["cls"] == "Subquery":
                         continue  # (subquery == 1 is Python equality of builders, subquery + 1 a set operation: not operand positions)
             toks = lexer.lex(text, ld)
+            if wrap not in ("top", "param") and not exc:
+                # the statement is embedded (FROM / IN subquery, CTE, set-operation operand): its own alias projection must be what it
+                # is on its own; the embedding statement adds only the subquery's alias
+                inner = proj.nested_selects(toks)
+                if wrap == "union-left" and toks and toks[0]["v"] != "(":
+                    cut = next((k for k, t in enumerate(toks) if t["t"] == "word" and t["v"] == "UNION" and t["d"] == 0), None)
+                    inner = [toks[:cut]] if cut else []
+                if not inner:
+                    raise core.MachineryError(f"no nested SELECT in the {wrap} embedding: {text}")
+                if wrap == "subq-from" and [x for x in proj.alias_seq(toks) if x != ["FROM", "alz"]]:
+                    outer_bad.append((d, h, wrap, text, proj.alias_seq(toks)))
+                toks = inner[0]
             events.append({"tid": len(events), "d": d, "hist": h["hist"], "exc": exc, "aliases": proj.alias_seq(toks)})
-            meta.append((d, h, text))
+            meta.append((d, dict(h, wrap=wrap) if wrap != "top" else h, text))
     results = tlc.judge_shards("J_C12Gen", "CONSTANT SrcTab <- G_SrcTab\nINIT Init\nNEXT Next\n", events, shard=max(300, len(events) // 16 + 1),
                                heap="3g", extra_files={"J_C12Gen.tla": gen("J_C12")}, timeout=1500)
     rep.add_tlc(results)
@@ -90,16 +129,24 @@ def run(tier: str) -> int:
             d, h, text = meta[v["tid"]]
             dk = "no-groupby-alias" if d in ("mssql", "oracle") else "groupby-alias"
             for fault, clause, alias in sorted(v["bad"]):
-                rep.discrepancy([[h["cls"], h["pos"], fault, clause, dk if "groupby" in h["pos"] else "any-dialect"] + (["with-sibling-continuations"] if h.get("siblings") else [])]
-                                if not h.get("siblings") else
-                                [[h["cls"], h["pos"], fault, clause, dk if "groupby" in h["pos"] else "any-dialect"],
-                                 [h["cls"], h["pos"], fault, clause, dk if "groupby" in h["pos"] else "any-dialect", "with-sibling-continuations"]],
-                                {"dialect": d, "class": h["cls"], "position": h["pos"], "sql": text, "expected": v["want"], "observed": events[v["tid"]]["aliases"]},
+                base = [h["cls"], h["pos"], fault, clause, dk if "groupby" in h["pos"] else "any-dialect"]
+                sigs = [base]
+                if h.get("siblings"):
+                    sigs.append(base + ["with-sibling-continuations"])
+                if h.get("wrap"):
+                    sigs.append(base + ["embedded:" + h["wrap"]])
+                rep.discrepancy(sigs, {"dialect": d, "class": h["cls"], "position": h["pos"], "embedding": h.get("wrap", "top"), "sql": text, "expected": v["want"],
+                                       "observed": events[v["tid"]]["aliases"]},
                                 what=f"alias {fault} in {clause or 'statement'}")
+    for d, h, wrap, text, got in outer_bad:
+        rep.discrepancy([[h["cls"], h["pos"], "outer-statement", wrap]], {"dialect": d, "class": h["cls"], "position": h["pos"], "sql": text, "outer_aliases": got},
+                        what="the embedding statement prints an alias of the embedded one")
     for k in (0, len(meta) // 2, len(meta) - 1):
         rep.sample({"dialect": meta[k][0], "class": meta[k][1]["cls"], "position": meta[k][1]["pos"], "sql": meta[k][2], "aliases": events[k]["aliases"]})
     rep.rule = (f"{len(hs)} programs = (14 PT_Expr term kinds + {len(ext)} further Term classes built by name, each with a unique alias) x 18 positions (defining, every operand "
-                "slot, clause operands, GROUP BY / ORDER BY by alias or expression) x 6 dialects; TLC folds the calls and compares the alias projection with AliasSeq")
+                "slot, clause operands, GROUP BY / ORDER BY by alias or expression) x 6 dialects; TLC folds the calls and compares the alias projection with AliasSeq"
+                + ("" if tier == "quick" else "; thorough: every SELECT program also rendered parameterised and embedded as FROM subquery, IN subquery, CTE and left UNION operand "
+                   "(the embedded statement's own projection is judged; the embedding statement may add only the subquery alias), sibling pass in all six dialects"))
     rep.exhaustive = True
     return rep.finish()
 
